@@ -65,6 +65,10 @@ CLAIMED = {
   "Deductive proof of totality and progress of the lexer: for every source string, next() and every scanning helper it reaches (read, peek, match, matchOneOf, matchWhile, matchWithUnderscores, matchIdentTail, nonWhiteRemaining, whitespace, lineComment, spanComment, rawString, quotedString, doesc, number, identifier, Next) never index or slice out of range (527 obligations), keep 0 <= position <= len(source), report Item.Pos = starting position, return Eof exactly when called at the end of the source and otherwise strictly advance the position - so token positions strictly increase and scanning terminates; every loop has a proved variant.",
   "Function-valued parameters (IsDigit, IsHexDigit, isIdentChar) are modelled as pure predicates that are false for 0 and each call site is obliged to pass such a function; the lexer's keyword callback and intern.String/strings.ReplaceAll are assumed effect-free. Sources are assumed shorter than 2^31 bytes (Item.Pos is int32). NOT covered: the parser (recursive descent reporting errors by panic), the 'tokens tile the source' text equality for processed tokens, Ahead/AheadSkip buffering.",
   "DESIGN.md §4 C32"),
+ "C10": (
+  "Deductive proof at the level of one stored btree node: for every byte string that satisfies the stated well-formedness predicate of leaf nodes (count, prefix length, per entry a 16 bit suffix position and 40 bit record offset, end position, prefix, contiguous suffixes - every entry's suffix lies between header+prefix and the node size) and of tree nodes (n keys, n+1 child offsets), the accessors nkeys/noffs/size/offset/key/suffix/prefix never index or slice out of range and return exactly the decoded field (positions, lengths, the 40 bit offset, key = prefix ++ suffix byte for byte), the leaf iterator stays within -1..n, and the binary searches search/seek of leaf and tree nodes stay inside the node on every iteration, return a position in 0..n (a found position is a real entry), and terminate (variants).",
+  "Scope: node decoding and in-node search SAFETY only. NOT covered: that search returns the RIGHT position (needs the sortedness invariant and lexicographic string order), the encoder leafBuilder.finishInto (a functional contract was written and did not discharge: removed), leaf insert/update/delete, splitTo, the tree node builders, builder.go (bulk build), merge.go (MergeAndSave), iter.go, rangefrac.go (floats), btree.go Lookup over several levels - i.e. the ordered-map behaviour of a whole tree, which is the body of the property, is not proved. That stored nodes satisfy the well-formedness predicate is an assumption (it is what the unproved encoders must establish). str.HasPrefix assumed.",
+  "DESIGN.md §0.3 C10"),
  "C42": (
   "Deductive proof of builtin.Transaction with panics modelled as control flow (the block is Thread.Call, which may return or panic with any value; the deferred function runs on every exit with recover() live): on a normal return of the block form the transaction is ended and Transaction itself did not roll it back; a panic never turns into a normal return (the exception still propagates); when the block threw a value other than BlockReturn the transaction is ended and was not completed by Transaction; when it threw BlockReturn it was not rolled back by Transaction; after ANY exit by panic once the transaction object exists it is ended - including the paths on which Complete or Rollback themselves fail. core.SuTran.Complete/Rollback/Ended are proved against the status field (normal exit: completed / aborted; exit by panic: aborted / not active).",
   "Assumed: Thread.Call (the interpreter running the block) may modify anything, returns or panics, and records in ghost variables whether it panicked and whether with BlockReturn; ITran.Complete/Abort and IDbms.Transaction are effect-free as far as this model goes (what the database does is C01/C03 territory); NewSuTran binds the ghost reference to the new transaction object (modelling device, assumed). Counting is by ghost counters of the Complete/Rollback calls made by Transaction itself (calls inside the block are behind Thread.Call). 'Completed exactly when...' is therefore: ended on every exit + the right one of Complete/Rollback attempted; that a successful Complete commits is the dbms's business. Contract mode nosafety (argument indexing). The other block forms (tran.Query block, Cursor) are not covered.",
